@@ -10,8 +10,11 @@ The oracle below knows nothing about the generator.  It computes from the reques
   * the tag X.680 gives every component (explicit tag, else the automatic tag, else the tag of
     the type: builtin table, tag of the referenced type, smallest root-alternative tag of an
     untagged CHOICE — whose alternatives are themselves subject to automatic tagging),
-  * the canonical order: root before extension additions, class UNIVERSAL < APPLICATION <
-    context-specific < PRIVATE, then number; SEQUENCE: textual order,
+  * the order X.691 21.1 prescribes for a SET: the root components in the canonical order of
+    X.680 8.6 (class UNIVERSAL < APPLICATION < context-specific < PRIVATE, then number), then the
+    extension additions in the order of their definition; SEQUENCE: textual order,
+  * the universal tag of the type itself (SEQUENCE 16, SET 17) and of every untagged component
+    of a plain type (SET OF 17; a DEFAULT component has the tag of its type),
 and compares that with the implementation's answer.
 """
 import itertools
@@ -198,7 +201,9 @@ def analyse(req):
         allt = [t for ts in tags for t in ts]
         if len(set(allt)) != len(allt):
             raise Illegal("SET components with equal tags")
-        want = sorted(range(n), key=lambda i: (is_ext[i], key(order_tag[i])))
+        # X.691 21.1: root components in canonical tag order, extension additions as written
+        want = sorted((i for i in range(n) if not is_ext[i]), key=lambda i: key(order_tag[i])) + \
+            [i for i in range(n) if is_ext[i]]
     else:
         want = list(range(n))
     return {
@@ -362,9 +367,25 @@ class TagsStream(runner.Stream):
             "tags set a:A1:int,c:-:ch[-~bool|-~int]",
             "tags set ...,a:A1:int,b:-:bool",                            # tags.marker-first
             "tags seq ...,a:-:int,b:-:bool",
-            "tags set a:C0:bool,b:-:setof",                              # tags.setof-const-tag
-            "tags set a:C0:bool,b:-:bool!",                              # tags.default-const-tag
-            "tags set a:-:bool",                                         # tags.set-own-tag
+            # regression corpus of repaired findings (an oracle failure here is a VIOLATION again)
+            "tags set a:C0:bool,b:-:setof",                              # was tags.setof-const-tag
+            "tags set a:C0:bool,b:-:setof?",
+            "tags seq a:C0:bool,b:-:setof",
+            "tags set a:C0:bool,b:-:bool!",                              # was tags.default-const-tag
+            "tags set a:C0:bool,b:-:int!",
+            "tags seq a:P1:null,b:-:bool!,c:-:int!",
+            "tags set a:C0:bool,...,b:-:int!",
+            "tags set a:-:bool",                                         # was tags.set-own-tag
+            "tags set a:C1:bool,b:C0:int", "tags set a:-:bool,...,b:-:int", "tags seq a:-:bool",
+            # extension additions keep their textual order (was uper.set_additions_sorted, C05:
+            # zoo_ver::SetV1 / SetV2 — a later addition with a lower tag)
+            "tags set a:C0:int,...,b:C5:bool?",
+            "tags set a:C0:int,...,b:C5:bool?,c:C2:int?",
+            "tags set b:C1:bool,a:C0:int,...,d:C3:bool?,c:C2:int?",     # zoo_set::SetX
+            "tags set a:A1:int,b:-:bool,...,c:C5:null,d:C2:int",
+            "tags set c:P3:bool,b:A1:int,...,e:P1:null,d:U9:null,f:-:bool",
+            "tags set a:C7:int,...,d:P1:null,c:C2:octs,b:A3:bool,e:U0:null",
+            "tags set a:C0:int,...,b:C5:bool!,c:-:setof",
             # reference cycles (regression corpus of the repaired finding tags.cyclic-abort; `!` = in a
             # child process, so that a stack overflow would be the answer `abort` of this request)
             "tags set! a:-:@R,b:A1:bool R=-:ch[-~@R|-~int]",             # legal; now tags.choice-autotag
@@ -494,37 +515,34 @@ class TagsStream(runner.Stream):
                 out.append((None, f"SEQUENCE must keep the textual order {want}"))
             else:
                 # which rule is broken decides the class: the order must be right once the
-                # components a known deviation is about are taken out
+                # components a known deviation is about are taken out.  (A marker in front of the
+                # first component no longer excuses a wrong order: every component is an addition
+                # then and additions stay as written; extension additions emitted in another than
+                # their textual order — the repaired finding uper.set_additions_sorted — are a
+                # violation.)
                 autoch = set() if a["auto"] else {
                     i for i, f in enumerate(fields)
-                    if f["tag"] is None and follows_auto_choice(f["ty"], a["env"])}
-                first = {0} if marker_first else set()
+                    if f["tag"] is None and not a["is_ext"][i] and follows_auto_choice(f["ty"], a["env"])}
 
                 def right_without(drop):
                     return bool(drop) and [i for i in idx if i not in drop] == \
                         [i for i in a["want"] if i not in drop]
                 cls = None
-                if right_without(first):
-                    cls = "tags.marker-first"
-                elif right_without(autoch) or right_without(autoch | first):
+                if right_without(autoch):
                     cls = "tags.choice-autotag"
                 desc = ", ".join(f"{names[i]}={'ext ' if a['is_ext'][i] else ''}{tag_str(a['order_tag'][i])}"
                                  for i in range(n))
-                out.append((cls, f"canonical order is {want} ({desc}), emitted {p[1]}"))
+                out.append((cls, f"order per X.691 21.1 is {want} ({desc}; root components by tag, "
+                                 f"extension additions as written), emitted {p[1]}"))
         # tags assigned to the components
         for g, gt in zip(idx, got_tags):
             if not a["single"][g]:
                 continue          # an untagged CHOICE component has no tag of its own
             want_t = tag_str(next(iter(a["tags"][g])))
             if gt != want_t:
-                f = fields[g]
-                cls = None
-                if f["tag"] is None and not a["auto"]:
-                    if f["pres"] == "!":
-                        cls = "tags.default-const-tag"
-                    elif f["ty"] == ("b", "setof"):
-                        cls = "tags.setof-const-tag"
-                out.append((cls, f"component {names[g]} has tag {want_t}, TAG constant is {gt}"))
+                # (were findings tags.default-const-tag / tags.setof-const-tag for untagged DEFAULT
+                #  and SET OF components; repaired in write_field_constraint)
+                out.append((None, f"component {names[g]} has tag {want_t}, TAG constant is {gt}"))
         # root / extension split as the descriptor states it
         roots = sum(1 for e in a["is_ext"] if not e)
         if not a["markers"]:
@@ -538,8 +556,8 @@ class TagsStream(runner.Stream):
             out.append((cls, f"{roots} root components, EXTENDED_AFTER_FIELD is {p[3]}"))
         own = "U17" if a["kind"] == "set" else "U16"
         if p[4] != own:
-            out.append(("tags.set-own-tag" if a["kind"] == "set" else None,
-                        f"the type's own tag is {own}, TAG constant is {p[4]}"))
+            # (was finding tags.set-own-tag for SET; repaired in write_sequence_or_set_constraint)
+            out.append((None, f"the type's own tag is {own}, TAG constant is {p[4]}"))
         return out
 
     def _pick(self, req, ans):
@@ -604,7 +622,7 @@ class Spec(runner.Spec):
     streams = [TagsStream()]
     assumptions = [
         "the module header's tagging mode is ignored by the crate (it always behaves like AUTOMATIC TAGS); the generated modules say AUTOMATIC TAGS, so X.680's automatic tagging is the reference",
-        "extension additions of a SET are ordered by tag after the root components, as the property text says; X.691 20.1 would keep them in textual order (the crate sorts them) — not judged here",
+        "extension additions of a SET follow the root components in the order of their definition (X.691 21.1: only the RootComponentTypeList is sorted into the canonical order; the property's 'root components before extension additions' is read that way since the repair of sort_fields_canonically — sorting the additions among themselves breaks C05)",
         "a second root component list after the extension additions (`a, ..., b, ..., c`) is outside the domain (the crate's grammar has one `extension_after` index)",
         "duplicate tags within one SET, undefined references and modules in which a tag depends on itself (`A ::= B`, `B ::= A`; X.680 gives such a type no tag, it is not legal ASN.1) are outside the oracle's domain; they stay in the correspondence stream (stability of the sort, compile error, 'no tag' for a reference cycle)",
         "imports / multi-module scopes are not modelled (one module per request)",
